@@ -62,6 +62,19 @@ mod search {
         let mut m = r.clone();
         m.version = r.version.wrapping_add(1);
         v.push(("version", m));
+        // coordinated two-field mutations (a signable encoding that merges fields would miss these)
+        let mut m = r.clone();
+        m.timestamp = r.timestamp + 7;
+        m.ttl = r.ttl - 7;
+        v.push(("timestamp+7 and lifetime-7", m));
+        let mut m = r.clone();
+        m.timestamp = r.timestamp - 100;
+        m.ttl = r.ttl + 100;
+        v.push(("timestamp-100 and lifetime+100", m));
+        let mut m = r.clone();
+        m.sequence_number = r.sequence_number + 1;
+        m.timestamp = r.timestamp - 1;
+        v.push(("sequence+1 and timestamp-1", m));
         let mut m = r.clone();
         m.public_key = other.public_key.clone();
         v.push(("key", m));
